@@ -51,7 +51,7 @@ def states(tier, seed):
     # viscous option: off, on with the usual laminar fraction, on fully laminar (k_lam = 1: its own branch of the drag model),
     # thorough also fully turbulent (k_lam = 0)
     vmenu = [False, 0.05, 1.0] if tier == "quick" else [False, 0.05, 1.0, 0.0]
-    for ss, al, be, visc, ground, tr in itertools.product(base_sets(tier), [5.0, -3.0], [0.0, 4.0], vmenu, [False, True], transforms(tier)):
+    for ss, al, be, visc, ground, tr in itertools.product(base_sets(tier), [5.0, -3.0], [0.0, 4.0, -6.0], vmenu, [False, True], transforms(tier)):
         sym = all(s["side"] != "full" for s in ss)
         anysym = any(s["side"] != "full" for s in ss)
         if anysym and be != 0.0:
